@@ -408,9 +408,40 @@ def decode_all(data, validate):
         # a caller may poll the same reader again after an error: that must stay inside the
         # buffer too (and may only raise ordinary errors)
         _repoll(mr, validate)
+        _direct(data, validate)
         raise
     _repoll(mr, validate)
+    _direct(data, validate)
     return nrec, crcs
+
+
+def _direct(data, validate):
+    """The batch classes are decoders in their own right (MemoryRecords hands them slices whose
+    length field it has already compared with the buffer; a caller holding one batch need not):
+    construct the class the magic byte selects over the whole buffer and walk it."""
+    from aiokafka.record.default_records import DefaultRecordBatch
+    from aiokafka.record.legacy_records import LegacyRecordBatch
+    if len(data) < 17:
+        return
+    magic = data[16]
+    try:
+        batch = DefaultRecordBatch(data) if magic >= 2 else LegacyRecordBatch(data, magic)
+        if validate:
+            batch.validate_crc()
+        n = 0
+        for rec in batch:
+            n += 1
+            _ = (rec.offset, rec.timestamp, rec.key, rec.value, rec.headers, rec.checksum)
+            if n > 1_000_000:
+                raise RuntimeError("decoder does not terminate: more than 10^6 records")
+    except (SystemError, MemoryError):
+        raise
+    except RuntimeError as exc:
+        if "does not terminate" in str(exc):
+            raise
+        # (KafkaError derives from RuntimeError: CorruptRecordException etc. are clean failures)
+    except Exception:  # noqa: BLE001  (an ordinary exception is a clean failure)
+        pass
 
 
 def _repoll(mr, validate):
